@@ -119,21 +119,28 @@ def NameOk (n : List Nat) : Prop := 3 ≤ n.length ∧ n.length ≤ 7 ∧ n.all 
 instance (n : List Nat) : Decidable (NameOk n) := by unfold NameOk; infer_instance
 
 def LttOk (t : Ltt) (dst : Bool) : Prop :=
-  t.dst = dst ∧ (∃ n, t.name = some n ∧ NameOk n) ∧ -89999 ≤ t.off ∧ t.off ≤ 89999
+  t.dst = dst ∧ (match t.name with | some n => NameOk n | none => False) ∧ -89999 ≤ t.off ∧ t.off ≤ 89999
+instance (t : Ltt) (dst : Bool) : Decidable (LttOk t dst) := by
+  unfold LttOk; cases t.name <;> infer_instance
 
 def DayOk : RuleDay → Prop
   | .julian1 n => 1 ≤ n ∧ n ≤ 365
   | .julian0 n => n ≤ 365
   | .mwd m w d => 1 ≤ m ∧ m ≤ 12 ∧ 1 ≤ w ∧ w ≤ 5 ∧ d ≤ 6
+instance (d : RuleDay) : Decidable (DayOk d) := by
+  cases d <;> unfold DayOk <;> infer_instance
 
 /-- rule times: `0 … 24:59:59` for plain POSIX, `±167:59:59` with the RFC 8536 extensions -/
 def TimeOk (ext : Bool) (t : Int) : Prop :=
-  if ext then -604799 ≤ t ∧ t ≤ 604799 else 0 ≤ t ∧ t ≤ 89999
+  (ext = true → -604799 ≤ t ∧ t ≤ 604799) ∧ (ext = false → 0 ≤ t ∧ t ≤ 89999)
+instance (ext : Bool) (t : Int) : Decidable (TimeOk ext t) := by unfold TimeOk; infer_instance
 
 def RuleOk (ext : Bool) : Rule → Prop
   | .fixed t => LttOk t false
   | .alt a => LttOk a.std false ∧ LttOk a.dst true ∧ DayOk a.dstStart ∧ DayOk a.dstEnd
       ∧ TimeOk ext a.dstStartTime ∧ TimeOk ext a.dstEndTime
+instance (ext : Bool) (r : Rule) : Decidable (RuleOk ext r) := by
+  cases r <;> unfold RuleOk <;> infer_instance
 
 /-! ### validity of an accepted zone (what `parse b = ok z` must imply) -/
 def SortedStrict : List Transition → Prop
